@@ -4,6 +4,22 @@ import json, os, subprocess
 V = os.path.dirname(os.path.dirname(os.path.abspath(__file__)))
 
 CHECKS = {
+ "C02": dict(cat="model_checking", ref="§6 C02",
+   technique="Upstream.tla with link failures, redial, resume (conflict-then-ok), reliable retransmission model-checked by TLC; environment projections of TLC behaviours with 1-2 failures replayed on a real reliable upstream; traces judged by the TLA+ monitor MonC02",
+   text="Design: every position of 1 (quick) / 2 (thorough) link failures relative to writes, cuts, sender goroutines, acks in flight, resume and retransmission is enumerated; a stored chunk leaves the store only after its result, and every cut chunk has reached the broker whenever the system is quiescent and healthy. Code: fault scripts from TLC simulation run against the in-memory broker which severs the pipe at the scripted points; the monitor checks per point: received with the original payload under the sequence number first given, never under two numbers, no sequence number reused for other content on any incarnation, unacknowledged chunks retransmitted on a later incarnation after a resume with the original stream id, close totals.",
+   note="Slow-redial assumption (40 ms) so that stream watchers observe the outage (fast redial is C05's subject); the broker acks only on the incarnation where it received the chunk; ack-timeout path not modelled."),
+ "C20": dict(cat="model_checking", ref="§6 C20",
+   technique="Upstream.tla per flush policy model-checked by TLC (barrier / boundary invariants); TLC-generated write/flush histories replayed sequentially (chunk partition predicted by the TLA+ monitor MonC20 from the history) and concurrently with State() sampling; timed interval-policy scenarios",
+   text="Design: SizePolicyBound, NoneCutsOnlyOnDemand, ImmediateCutsEveryWrite, Conservation, NoEmptyChunk and SnapshotConservation hold in every state of the per-policy configurations. Code: for sequential histories the monitor computes the exact chunk partition (strictly-greater threshold rule, everything buffered is cut) and compares it with what the broker received; Flush barrier and State() snapshot laws are checked on every returned Flush / sampled snapshot; interval latency with slack.",
+   note="Interval policies are real-time (1.5 x interval + 250 ms slack); concurrent histories are judged only on barrier/snapshot/emptiness clauses."),
+ "C18": dict(cat="model_checking", ref="§6 C18",
+   technique="implementation-shaped TLA+ spec ReconnectTransportCore.tla (write loop, read loop, reconnect with budget, ping filter) model-checked by TLC; all maximal environment scripts replayed on reconnect.Dial with scripted underlying transports; whole-history TLA+ monitor MonC18",
+   text="Design: accepted-exactly-once, order, redial id/flag, ping filtering and no-block-after-budget/close hold in every state of the fixed model (and TLC finds the blocked-Write counterexample in the as-coded model). Code: failure sequences on read / write / redial / handshake with 1-2 writers and both budget outcomes are replayed; every Read/Write runs under a watchdog; the monitor checks lost/duplicated/reordered writes, redial parameters, ping handling and blocked calls.",
+   note="Watchdog = script end + 2 s; concurrent writes have no mutual ordering obligation."),
+ "C19": dict(cat="model_checking", ref="§6 C19",
+   technique="TLA+ spec MultiTransportCore.tla with asynchronous selection application model-checked by TLC; scripts replayed on multi.NewTransport with scripted members and all scheduler kinds; set-of-possible-states TLA+ monitor MonC19 (silent ApplySel steps)",
+   text="Design: WritesToCurrent, ReadsOnce, CloseClosesAll, CountersAreSums, UnknownIdHarmless over all member sets, initial ids and selection sequences incl. non-members and the empty id. Code: every script is replayed with event, NIC, polling (scripted / round-robin / last-used) schedulers; the monitor accepts exactly the outcomes some serialisation of pending selections explains; unknown-id scenarios run one process each so that a library panic is observed as ProcessDied.",
+   note="Joint bound 4 selections x 3 writes x 3 member reads not finished in 15 min: thorough runs two complementary bounds."),
  "C01": dict(cat="model_checking", ref="§6 C01",
    technique="implementation-shaped TLA+ spec Upstream.tla exhaustively model-checked by TLC per flush policy; environment projections of TLC behaviours replayed on a real iscp upstream against the in-memory broker; recorded traces judged by TLC with the TLA+ property monitor MonC01",
    text="Design level: every interleaving of 2-3 writes from two writers, explicit flushes, per-chunk sender goroutines, broker acks of any subset/order/duplicate with alias grants, the three-hop ack path and Close is enumerated; conservation, numbering, close totals, no-chunk-after-close, alias-after-grant, hook soundness hold in every state. Code level: scripts (TLC simulation of a larger configuration plus a gated family that forces the write order of concurrent chunk senders) run on the real library; the monitor checks the exactly-once multiset law per data id with order, sequence numbering, close totals, alias discipline, both hooks and chunk-after-close on every trace.",
